@@ -8,16 +8,17 @@ extra ids), restores /repo (git checkout -- . ; git clean of files the patch add
 the outcome to the seed's meta.json under "runs"."""
 import json, os, subprocess, sys, time
 ROOT = os.path.dirname(os.path.dirname(os.path.abspath(__file__)))
+REPO = os.environ.get("VERIF_REPO", "/repo")   # a lane (tools/mklane.sh) tests seeds against its own clone
 seed = os.path.abspath(sys.argv[1])
 tier = sys.argv[2] if len(sys.argv) > 2 and sys.argv[2] in ("quick", "thorough") else "quick"
 extra = [a for a in sys.argv[2:] if a not in ("quick", "thorough")]
 meta = json.load(open(os.path.join(seed, "meta.json")))
 ids = [meta["property"]] + extra
 patch = os.path.join(seed, "patch.diff")
-st = subprocess.run(["git", "-C", "/repo", "status", "--porcelain"], capture_output=True, text=True).stdout
+st = subprocess.run(["git", "-C", REPO, "status", "--porcelain"], capture_output=True, text=True).stdout
 if st.strip():
-    sys.exit("refusing: /repo is not clean:\n" + st)
-r = subprocess.run(["git", "-C", "/repo", "apply", patch], capture_output=True, text=True)
+    sys.exit("refusing: " + REPO + " is not clean:\n" + st)
+r = subprocess.run(["git", "-C", REPO, "apply", patch], capture_output=True, text=True)
 if r.returncode != 0:
     sys.exit("patch does not apply: " + r.stderr)
 runs = meta.setdefault("runs", [])
@@ -39,6 +40,6 @@ try:
                      "summary": lines[-1] if lines else p.stdout[-300:], "wall_s": round(time.time() - t0, 1)})
         print(pid, tier, "exit", p.returncode, keys[:6])
 finally:
-    subprocess.run(["git", "-C", "/repo", "checkout", "--", "."])
-    subprocess.run(["git", "-C", "/repo", "clean", "-fdq"])
+    subprocess.run(["git", "-C", REPO, "checkout", "--", "."])
+    subprocess.run(["git", "-C", REPO, "clean", "-fdq"])
 json.dump(meta, open(os.path.join(seed, "meta.json"), "w"), indent=1)
